@@ -415,15 +415,15 @@ def _run(strategy, total, nshards, seed, tier, scratch, leg):
 
 
 def shard_poison(shard, nshards, tier, seed, scratch):
-    return _run(st_poison(), 6000 if tier == 'quick' else 90000, nshards, seed, tier, scratch, 'poison')
+    return _run(st_poison(), 14000 if tier == 'quick' else 120000, nshards, seed, tier, scratch, 'poison')
 
 
 def shard_text(shard, nshards, tier, seed, scratch):
-    return _run(st.one_of(st_mistake(), st_mistake(), st_io()), 3000 if tier == 'quick' else 40000, nshards, seed, tier, scratch, 'text')
+    return _run(st.one_of(st_mistake(), st_mistake(), st_io()), 8000 if tier == 'quick' else 60000, nshards, seed, tier, scratch, 'text')
 
 
 def shard_warn(shard, nshards, tier, seed, scratch):
-    return _run(st.one_of(st_warn_csv(), st_warn_csv(), st_warn_table()), 6000 if tier == 'quick' else 90000, nshards, seed, tier, scratch, 'warnings')
+    return _run(st.one_of(st_warn_csv(), st_warn_csv(), st_warn_table()), 14000 if tier == 'quick' else 120000, nshards, seed, tier, scratch, 'warnings')
 
 
 def replay(case, clause=None):
